@@ -92,11 +92,12 @@ func c17Sets(w *vfWorld) []*c17Set {
 			Bases: []string{"/rw/", "/rw/long/", "/rw/long/deeper/x/", "/rw", "/sw/", "/sw/a/", "/old/v1/", "/old/v22/", "/old/vx/", "/q/", "/same/", "/", "/rw%2F", "/rwx/", "/rw%2Flong%2F"}},
 		{Name: "alpha-raw", Raw: true,
 			Ups: []*c17Up{c17HTTP("root", "/", "u0"), nohost(c17HTTP("a", "/a/", "u1")), c17HTTP("ab", "/a/b/", "u2"), c17HTTP("exact", "/exact", "u3"),
-				{ID: "st", Kind: "static", Path: "/st/", StaticCode: 418}},
-			Bases: []string{"/", "/a/", "/a/b/", "/a%2Fb/", "/%61/", "/exact", "/st/", "/a", "/a/%2F/", "/a/%2E/", "/a/%2e%2e/"}},
+				{ID: "st", Kind: "static", Path: "/st/", StaticCode: 418}, c17HTTP("sib", "/ab/", "u4"), c17HTTP("abc", "/a/b/c/", "u5")},
+			Bases: []string{"/", "/a/", "/a/b/", "/a%2Fb/", "/a%2fb/", "/%61/", "/exact", "/st/", "/a", "/a/%2F/", "/a/%2E/", "/a/%2e%2e/", "/a%2F", "/a%2f", "/a/b%2F", "/a/b%2Fc", "/a/b%2Fc/", "/a/b%2fc%2F",
+				"/ab%2F", "/ab/", "/a%2Fb%2Fc%2F", "/st%2F", "/exact%2F", "/%65xact", "/a/b/c/", "/a/b/c%2F"}},
 		{Name: "alpha-raw-rewrite-noroot", Raw: true,
 			Ups:   []*c17Up{c17RW("rw", "^/rw/(.*)$", "/t/$1", "u1"), c17RW("rwlong", "^/rw/long/(.*)$", "/long/$1?added=1&k=v%20w", "u2"), nohost(c17HTTP("a", "/a/", "u3"))},
-			Bases: []string{"/rw/", "/rw/long/", "/a/", "/a", "/zzz/", "/rw", "/rw%2F", "/a/%2F/"}},
+			Bases: []string{"/rw/", "/rw/long/", "/a/", "/a", "/zzz/", "/rw", "/rw%2F", "/a/%2F/", "/a%2F", "/a%2fb/", "/rw%2Flong%2F", "/rw/long%2F"}},
 		{Name: "alpha-mixed-inject",
 			Ups: []*c17Up{{ID: "docs", Kind: "file", Path: "^/docs/(.*)$", Rewrite: "/$1", Re: regexp.MustCompile("^/docs/(.*)$"), Dir: dir}, {ID: "files", Kind: "file", Path: "/files/", Dir: dir},
 				{ID: "ok", Kind: "static", Path: "/ok", StaticCode: 200}, {ID: "st", Kind: "static", Path: "/st/", StaticCode: 418},
